@@ -1860,6 +1860,9 @@ arguments:
 	}
 |	arguments ',' argument
 	{
+		if len($$.Keywords) != 0 && len($3.Args) != 0 {
+			yylex.(*yyLex).SyntaxError("non-keyword arg after keyword arg")
+		}
 		$$.Args = append($$.Args, $3.Args...)
 		$$.Keywords = append($$.Keywords, $3.Keywords...)
 	}
